@@ -128,7 +128,7 @@ def h_registers(e, i, j):
 CAND = [2**14, 2**14 + 1, 2**14 + 3, 2**14 + 4, 2**14 + 6, 2**14 + 7, 2**32 - 4, 2**32 - 2, 2**32 - 1]
 
 
-def h_memory(e, subset, cached, order="asc"):
+def h_memory(e, subset, cached, order="asc", after="none"):
     """data-memory table after writing the bytes `subset` (indices into CAND) with symbolic values"""
     from architecture_simulator.simulation.riscv_simulation import RiscvSimulation
     from symx.state import fx, cache_options
@@ -158,6 +158,24 @@ def h_memory(e, subset, cached, order="asc"):
             w = w | (written.get(a + i, 0) << (8 * i))
         check_reprs(e, "word@%x" % a, r[1], w, 32)
     e.claim("canary:mem", len(rows) == len(words) + 1)
+    if after == "none":
+        return
+    # the table follows the store through a reset / a reload: no row of the previous contents
+    # remains, and the next written byte shows up with its current value
+    if after == "reset":
+        mem.reset()
+    else:
+        sim.load_program("addi x0, x0, 0")
+        mem = sim.state.memory
+    rows2 = sim.get_data_memory_entries()
+    e.claim("table-empty-after-%s" % after, list(rows2) == [], {"rows": [r[0][0] for r in rows2]})
+    v2 = e.int("after", 0, 255)
+    k2 = CAND[subset[0]] if subset else CAND[0]
+    mem.write_byte(k2, f.UInt8(v2), True) if cached else mem.write_byte(k2, f.UInt8(v2))
+    rows3 = sim.get_data_memory_entries()
+    e.claim("one-row-after-%s-and-write" % after, [r[0][0] for r in rows3] == [k2 & ~3], {"rows": [r[0][0] for r in rows3]})
+    for r in rows3:
+        check_reprs(e, "after-%s@%x" % (after, r[0][0]), r[1], v2 << (8 * (k2 & 3)), 32)
 
 
 def h_toy(e):
@@ -197,7 +215,8 @@ def jobs(tier, seed):
         if tier == "quick" and len(s) == 3 and (k + seed) % 4 != 0:
             continue
         for order in (("asc",) if len(s) < 2 else ("asc", "desc") if len(s) == 2 else ("asc", "desc", "rot")):
-            out.append({"label": "memory-%s-%s" % ("_".join(map(str, s)), order), "harness": "memory", "args": {"subset": list(s), "cached": bool(len(s) and k % 5 == 0), "order": order}, "cost": 2, "validate_every": 2})
+            after = ("none", "reset", "reload")[(k + len(order)) % 3] if len(s) <= 2 else "none"
+            out.append({"label": "memory-%s-%s%s" % ("_".join(map(str, s)), order, "" if after == "none" else "-" + after), "harness": "memory", "args": {"subset": list(s), "cached": bool(len(s) and k % 5 == 0), "order": order, "after": after}, "cost": 2, "validate_every": 2})
     out.append({"label": "toy", "harness": "toy", "args": {}, "cost": 5})
     return out
 
